@@ -158,8 +158,9 @@ def run(tier, seed, log, model_runs=True, enlarged=False):
     laws = Counter()
     sizes = Counter()
     try:
-        for i in range(ndocs):
-            d = simpledocs.simple_doc(rng)
+        nbig = 1 if tier == "quick" else 6
+        for i in range(ndocs + nbig):
+            d = simpledocs.simple_doc(rng) if i < ndocs else simpledocs.big_doc(rng, rng.choice([60, 150, 400]) if tier != "quick" else 150)
             sizes[len(d.get_records()) + sum(len(b.get_records()) for b in d.bundles)] += 1
             try:
                 n, fails, lw = run_doc(d, scratch, i)
@@ -172,7 +173,7 @@ def run(tier, seed, log, model_runs=True, enlarged=False):
                 violations.append({"kind": "failing-input", "failure": f, "provn": d.get_provn()[:1500]})
     finally:
         shutil.rmtree(scratch, ignore_errors=True)
-    log("ran %d serialize/deserialize/read calls on %d documents in %.1fs" % (total, ndocs, time.time() - t0))
+    log("ran %d serialize/deserialize/read calls on %d documents in %.1fs" % (total, ndocs + nbig, time.time() - t0))
     bad_laws = {k: v for k, v in laws.items() if "accepts" in k}
     if bad_laws:
         violations.append({"kind": "broken-correspondence", "what": "a law assumed about the external parsers does not hold",
@@ -185,7 +186,8 @@ def run(tier, seed, log, model_runs=True, enlarged=False):
     coverage = {
         "evaluations": total,
         "distinct_nontrivial": ndocs * 4 * 4,
-        "rule": "generated documents with non-ASCII content from the intersection of the JSON/XML/RDF spaces; for each: 4 "
+        "rule": "generated documents with non-ASCII content from the intersection of the JSON/XML/RDF spaces, plus large "
+                "documents (serialisations of 20-150 KiB dense in multi-byte characters, beyond the 8 KiB / 64 KiB stream buffers); for each: 4 "
                 "formats x 4 destination kinds (returned string, text stream, binary stream, file path) compared, then every "
                 "artefact x 10 ways of reading it (content str/bytes, text/binary stream, path, prov.read on stream/path with and "
                 "without format) compared by strict content (RDF: set-based against unified()); distinct_nontrivial counts "
